@@ -7,7 +7,7 @@ import sys
 
 RULE = ("history cases execute 5-12 calls in ONE worker process: propka.run.single with a path or a text "
         "stream, or propka.run.main with several files, with options drawn from {none, -d, -i, -c, "
-        "--protonate-all, -k, -g/-w, -p}, the working directory changed and Group/Atom junk allocated "
+        "--protonate-all, -k, -g/-w, -p with varying coupling thresholds and numeric model parameters}, the working directory changed and Group/Atom junk allocated "
         "and freed between calls, inputs including unknown elements (which mutate the shared Protonate "
         "singleton), multi-conformation files and coupled systems; every call's full record (all "
         "groups, determinants, profiles, pI, .pka text minus the date line) must be bit-identical to "
